@@ -240,8 +240,10 @@ func (c *cv) shpDraw(t *rapid.T, tag string, maxPolys, maxSize, maxPts int) (pol
 		polys = append(polys, f)
 		points = append(points, s)
 	}
-	if rapid.IntRange(0, 3).Draw(t, tag+"data?") == 0 {
-		data = [][]byte{rapid.SliceOfN(rapid.Byte(), 0, 40).Draw(t, tag+"data")}
+	var dclass string
+	data, dclass = c.drawExtraData(t, tag+"xd")
+	classes = append(classes, "extra_data_kind:"+dclass)
+	if len(data) > 0 {
 		classes = append(classes, "with_transcript_data")
 	}
 	if shared {
@@ -446,6 +448,13 @@ func propShplonk(t *rapid.T, c *cv) {
 	rep.Case(test, "honest "+key, minimal || npts&(npts-1) != 0,
 		append([]string{"shplonk", "curve:" + c.name, "honest", fmt.Sprintf("polys:%d", len(polys)), fmt.Sprintf("points:%d", npts)}, classes...)...)
 
+	// (1b) the optional transcript data: accepted with exactly the prover's data, rejected with any other byte string
+	c.extraDataCheck(t, test, "shplonk", data, key, func(B [][]byte) (int, string) {
+		inB := *in
+		inB.data = B
+		return c.shpExpectObj(&inB, c.shpObj(in))
+	}, func(B [][]byte) error { return c.shpVerify(in.proof, in.digests, points, srs, B) })
+
 	// (2) reflective tampering of statement and proof, verdict decided in the exponent
 	runTamper(t, tamperRun{
 		test: test, scheme: "shplonk", c: c, honest: c.shpObj(in), donor: c.shpObj(don), key: key, max: 90,
@@ -568,4 +577,143 @@ func propShplonk(t *rapid.T, c *cv) {
 
 func TestC17a_Shplonk(t *testing.T) {
 	forCurves(t, func(t *testing.T, c *cv) { rapid.Check(t, func(t *rapid.T) { propShplonk(t, c) }) })
+}
+
+// ---- optional extra transcript data (dataTranscript ...[]byte of shplonk and fflonk) ---------------------
+
+// drawExtraData draws the prover's extra transcript data: none, one element, several elements, an empty element,
+// a long element.
+func (c *cv) drawExtraData(t *rapid.T, tag string) ([][]byte, string) {
+	bs := func(lo, hi int, l string) []byte { return rapid.SliceOfN(rapid.Byte(), lo, hi).Draw(t, tag+l) }
+	switch kind := rapid.SampledFrom([]string{"none", "none", "one_element", "several_elements", "empty_element", "long_element"}).Draw(t, tag+"kind"); kind {
+	case "one_element":
+		return [][]byte{bs(1, 40, "e0")}, kind
+	case "several_elements":
+		n := rapid.IntRange(2, 4).Draw(t, tag+"n")
+		var d [][]byte
+		for i := 0; i < n; i++ {
+			d = append(d, bs(1, 24, fmt.Sprintf("e%d", i)))
+		}
+		return d, kind
+	case "empty_element":
+		if rapid.Bool().Draw(t, tag+"alone") {
+			return [][]byte{{}}, kind
+		}
+		return [][]byte{bs(1, 16, "e0"), {}, bs(1, 16, "e2")}, kind
+	case "long_element":
+		return [][]byte{bs(200, 700, "long")}, kind
+	default:
+		return nil, "none"
+	}
+}
+
+func concatAll(d [][]byte) []byte {
+	var out []byte
+	for _, e := range d {
+		out = append(out, e...)
+	}
+	return out
+}
+
+func cloneData(d [][]byte) [][]byte {
+	out := make([][]byte, len(d))
+	for i := range d {
+		out[i] = append([]byte{}, d[i]...)
+	}
+	return out
+}
+
+// extraDataCheck verifies an honest proof made with data A against A itself and against every variant B of A.
+// The documented layout ("appended at the end of the original transcript"; challenge = H(name ‖ previous ‖ bound
+// values…)) makes the challenge a function of the CONCATENATION of the elements: a variant with the same bytes in
+// another framing (split / merged elements, an added empty element) is the same transcript and is decided — like
+// everything else — by the relation in the exponent (expect); every variant with other bytes must be rejected.
+func (c *cv) extraDataCheck(t *rapid.T, test, scheme string, A [][]byte, key string, expect func(B [][]byte) (int, string), verify func(B [][]byte) error) {
+	type variant struct {
+		name string
+		B    [][]byte
+	}
+	vs := []variant{{"same", cloneData(A)}}
+	rb := func(l string, lo, hi int) []byte { return rapid.SliceOfN(rapid.Byte(), lo, hi).Draw(t, "xdv_"+l) }
+	if len(A) == 0 {
+		vs = append(vs, variant{"none_vs_one_element", [][]byte{rb("some", 1, 20)}},
+			variant{"none_vs_several_elements", [][]byte{rb("s0", 1, 8), rb("s1", 1, 8)}},
+			variant{"none_vs_empty_element", [][]byte{{}}})
+	} else {
+		vs = append(vs, variant{"some_vs_none", nil})
+		all := concatAll(A)
+		if len(all) > 0 {
+			// one byte changed (position drawn over the whole data)
+			pos := rapid.IntRange(0, len(all)-1).Draw(t, "xdv_pos")
+			B := cloneData(A)
+			for i, off := 0, 0; i < len(B); i++ {
+				if pos < off+len(B[i]) {
+					B[i][pos-off] ^= byte(1 << uint(rapid.IntRange(0, 7).Draw(t, "xdv_bit")))
+					break
+				}
+				off += len(B[i])
+			}
+			vs = append(vs, variant{"one_bit_changed", B})
+			// last byte dropped / one byte appended
+			B = cloneData(A)
+			for i := len(B) - 1; i >= 0; i-- {
+				if len(B[i]) > 0 {
+					B[i] = B[i][:len(B[i])-1]
+					break
+				}
+			}
+			vs = append(vs, variant{"last_byte_dropped", B})
+			B = cloneData(A)
+			B[len(B)-1] = append(B[len(B)-1], rb("app", 1, 1)...)
+			vs = append(vs, variant{"byte_appended", B})
+			// same bytes, other framing: split one element, merge all elements, add an empty element
+			B = nil
+			for _, e := range A {
+				if len(e) >= 2 {
+					B = append(B, append([]byte{}, e[:len(e)/2]...), append([]byte{}, e[len(e)/2:]...))
+				} else {
+					B = append(B, append([]byte{}, e...))
+				}
+			}
+			vs = append(vs, variant{"framing_split", B}, variant{"framing_merged", [][]byte{all}})
+		}
+		vs = append(vs, variant{"framing_empty_element_added", append(cloneData(A), []byte{})})
+		vs = append(vs, variant{"element_added", append(cloneData(A), rb("add", 1, 12))})
+		if len(A) >= 2 {
+			B := cloneData(A)
+			B[0], B[len(B)-1] = B[len(B)-1], B[0]
+			vs = append(vs, variant{"elements_swapped", B}, variant{"last_element_dropped", cloneData(A)[:len(A)-1]})
+		}
+	}
+	for _, v := range vs {
+		want, why := expect(v.B)
+		sameBytes := string(concatAll(v.B)) == string(concatAll(A))
+		// harness sanity: the oracle can only keep accepting when the transcript bytes are the same
+		if want == mustAccept && !sameBytes {
+			// possible only for degenerate statements where the relation does not depend on the challenges
+			// (all polynomials constant: W = W' = identity); decided by the relation, labelled separately
+			why = "relation_independent_of_challenges"
+		}
+		if sameBytes && want != mustAccept {
+			t.Fatalf("harness error: same transcript bytes but the oracle does not accept (%s)", why)
+		}
+		err := verify(v.B)
+		cls := "extra_data:different_reject"
+		switch {
+		case v.name == "same":
+			cls = "extra_data:same_accept"
+		case sameBytes:
+			cls = "extra_data:same_bytes_other_framing_accept"
+		case want == mustAccept:
+			cls = "extra_data:different_but_relation_holds_accept"
+		}
+		if want == mustAccept && err != nil {
+			t.Fatalf("%s/%s: proof made with transcript data %x rejected when verified with %s data %x (%s): %v — %s", scheme, c.name, A, v.name, v.B, why, err, key)
+		}
+		if want == mustReject && err == nil {
+			t.Fatalf("%s/%s: FORGERY ACCEPTED: proof made with transcript data %x verifies with OTHER data (%s) %x — the extra data is not bound to the challenges — %s", scheme, c.name, A, v.name, v.B, key)
+		}
+		rep.Case(test, fmt.Sprintf("%s extra_data %s A=%x B=%x %s", scheme, v.name, A, v.B, key), true, scheme, "curve:"+c.name,
+			cls, cls+":"+scheme, "extra_data_variant:"+v.name, "why:"+why)
+	}
 }
